@@ -9,6 +9,8 @@ import (
 	"errors"
 	"fmt"
 	"net"
+	"strconv"
+	"strings"
 
 	_ "github.com/mattn/go-sqlite3"
 )
@@ -44,6 +46,11 @@ func loadRecords(db *sql.DB) (map[string]*Record, error) {
 		}
 		hwaddr, err := net.ParseMAC(mac)
 		if err != nil {
+			// net.ParseMAC only knows 6, 8 and 20 byte addresses, but saveIPAddress
+			// stores whatever length the client sent
+			hwaddr, err = parseStoredMAC(mac)
+		}
+		if err != nil {
 			return nil, fmt.Errorf("malformed hardware address: %s", mac)
 		}
 		ipaddr := net.ParseIP(ip)
@@ -56,6 +63,24 @@ func loadRecords(db *sql.DB) (map[string]*Record, error) {
 		return nil, fmt.Errorf("failed lease database row scanning: %w", err)
 	}
 	return records, nil
+}
+
+// parseStoredMAC parses the output of net.HardwareAddr.String() for an address of any
+// length (colon-separated hexadecimal bytes, empty for a zero-length address)
+func parseStoredMAC(s string) (net.HardwareAddr, error) {
+	if s == "" {
+		return net.HardwareAddr{}, nil
+	}
+	parts := strings.Split(s, ":")
+	hwaddr := make(net.HardwareAddr, len(parts))
+	for i, part := range parts {
+		b, err := strconv.ParseUint(part, 16, 8)
+		if err != nil {
+			return nil, err
+		}
+		hwaddr[i] = byte(b)
+	}
+	return hwaddr, nil
 }
 
 // saveIPAddress writes out a lease to storage
